@@ -362,8 +362,11 @@ PLANS["C13"] = {
              "suites and standalone GMAC): keys are random, the secrets the library derives itself - H = E_K(0) and "
              "E_K(J0) of AES-GCM/GMAC and SM4-GCM, the one-time Poly1305 key of ChaCha20-Poly1305, hash key and end "
              "pad of SNOW-V-AEAD - are computed with the reference models and registers, stack window and manager are "
-             "searched for either 8-byte half of each value."),
-    "floors": {"quick": {"residue_scans": 15000, "helper_scans": 150, "derived_secret_searches": 20000}},
+             "searched for either 8-byte half of each value. The same value search runs after each direct AEAD call "
+             "(GCM pre / one-shot enc+dec / init-update-finalize for the three key sizes, GHASH pre + GHASH, "
+             "ChaCha20-Poly1305 init-update-finalize) for H, E_K(J0), the one-time Poly1305 key and the raw key."),
+    "floors": {"quick": {"residue_scans": 15000, "helper_scans": 150, "derived_secret_searches": 20000,
+                         "direct_value_scans": 8000}},
     "assumptions": ["only residue present at the return of the emptying API call is observable",
                     "derived secrets other than those listed under DERIVED (round keys computed from a real key, "
                     "LFSR states, CCM S0) are outside both oracles; expanded key material is patterned directly instead"],
